@@ -89,16 +89,25 @@ def event_arms(b, enum_adt):
     targets = [(switch_meaning(b, best, v), tb) for v, tb in t["targets"]]
     oth = t["otherwise"]
     oth_unreachable = b.term(oth)["t"] == "unreachable"
+    wildcard = False
     if not oth_unreachable:
         rest = switch_meaning(b, best, None)
-        if isinstance(rest, tuple) and len(rest) == 1:
-            targets.append((rest[0], oth))
-            oth_unreachable = True   # the otherwise edge stands for the single remaining variant
-    reach = {name: b.reach([tb]) for name, tb in targets}
+        if isinstance(rest, tuple):
+            for name in rest:
+                targets.append((name, oth))      # the otherwise edge stands for every remaining variant
+            if len(rest) == 1:
+                oth_unreachable = True
+            else:
+                wildcard = True
+    by_target = {}
     for name, tb in targets:
+        by_target.setdefault(tb, []).append(name)
+    reach = {tb: b.reach([tb]) for tb in by_target}
+    for tb, names in by_target.items():
         others = set()
-        for n2, r in reach.items():
-            if n2 != name:
+        for t2, r in reach.items():
+            if t2 != tb:
                 others |= r
-        arms[name] = (best, tb, reach[name] - others)
-    return arms, best, oth_unreachable
+        for name in names:
+            arms[name] = (best, tb, reach[tb] - others)
+    return arms, best, oth_unreachable and not wildcard
